@@ -13,6 +13,7 @@ def run(ctx):
     s = ctx['seed'] + 5
     return run_parts(ctx, [
         Part('apply_matcher', 'corr_matcher', 'run_matcher', [s, 150 if q else 3000]),
+        Part('matcher_code', 'corr_matchergen', 'run', [s, 150 if q else 3000], count_exceptions=False),
         Part('njobs', 'corr_meta', 'run_njobs_matcher', [s, 40 if q else 600]),
         Part('split_grid', 'corr_split', 'run', [s, 100 if q else 1000]),
     ], RULE)
